@@ -69,7 +69,7 @@ def _job(arg):
     bad = []
     for x in v[2]:
         r = byid[int(x[0])]
-        bad.append((str(x[1]), c04.tags(r, str(x[3])), c04._fmt(x[2]), {"kind": "exec", "bytes": r["b"][: r["n"]], "seed": r["seed"], "variant": r["variant"]}, r["text"], r["errtext"]))
+        bad.append((str(x[1]), c04.tags(r, "+".join(str(t) for t in x[3])), c04._fmt(x[2]), {"kind": "exec", "bytes": r["b"][: r["n"]], "seed": r["seed"], "variant": r["variant"]}, r["text"], r["errtext"]))
     skipped: Dict[str, int] = {}
     for x in v[3]:
         skipped[str(x[1])] = skipped.get(str(x[1]), 0) + 1
